@@ -66,7 +66,9 @@ def run(ctx):
                 muts.add(n[:i] + n[i + 1:]); muts.add(n[:i] + "x" + n[i:]); muts.add(n[:i] + n[i:i + 1].upper() + n[i + 1:])
         extra = sorted(muts)
     else:
-        extra = ["sql", "SQL.any", "sql.Any", "sql.duck", "sql.duckdbx", " sql.duckdb", "sql..mysql", ""]
+        extra = ["sql", "SQL.any", "sql.Any", "sql.duck", "sql.duckdbx", " sql.duckdb", "sql..mysql", "", "any", "x.any", "sql.x.any"]
+        for d in dialects:   # a valid last segment under a wrong family / extra segment / no family
+            extra += [d, "x." + d, "nosql." + d, "sql.x." + d, "sql." + d + ".", "sql." + d.upper()]
     ctx.exhaustive = True
 
     # 1. model's decision for every (option, header)
